@@ -8,7 +8,7 @@ use unicode_width::UnicodeWidthChar;
 use crate::explore::{bfs, run_op, sweep, Base, Local, Trans};
 use crate::judge::*;
 use crate::ops::{apply, build, Op, P};
-use crate::props::{gen_bases, geoms, large_bases, with_poison, Guard};
+use crate::props::{gen_bases, geoms, large_bases, repeat_op, with_poison, Guard};
 use crate::refscreen::{compare, fresh, Comp, Model, ALL_COMPS, DECCOLM};
 use crate::report::{Collector, Violation};
 use crate::seeds::*;
@@ -245,6 +245,25 @@ pub fn c09(c: &Collector, g: &mut Guard) {
         local.count("large_geometry_transitions");
         invariant(c, "C09", "E2.depth1.large", t, local);
     });
+    // sizes around the parser's 9999 clamp and the 16-bit boundary (from tiny screens)
+    let hb: Vec<Base> = bases.iter().filter(|b| b.columns <= 3 && b.lines <= 2).step_by(97).take(6).cloned().collect();
+    sweep(
+        c,
+        &hb,
+        |_| {
+            let mut v = Vec::new();
+            for n in [9998u32, 9999, 10000, 12000, 65535, 65536, 70000] {
+                v.push(Op::Resize(Some(n), None));
+                v.push(Op::Resize(None, Some(n)));
+                v.push(Op::Resize(Some(n), Some(2)));
+            }
+            v
+        },
+        |c, t, local| {
+            local.count("huge_resizes");
+            invariant(c, "C09", "E2.huge-sizes", t, local);
+        },
+    );
     let depth = if c.thorough() { 4 } else { 3 };
     for gg in [(3u32, 2u32), (4, 3)] {
         if gg == (4, 3) && !c.thorough() {
@@ -443,6 +462,99 @@ pub fn c10(c: &Collector, g: &mut Guard) {
             viol(c, "C10", "E2.display.large", t, &format!("panic:{}", panic_class(m)), format!("display() panicked: {}", m));
         }
     });
+    // big screens (more than 4096 cells) with attribute-only blank rows
+    let bigspec = Spec {
+        geoms: vec![(100, 60), (132, 43)],
+        fills: vec![Fill::F0, Fill::F5, Fill::F8],
+        cursors: CursorSel::Home,
+        regions: RegionSel::NoRegion,
+        modesets: vec![0, M_DECSCNM],
+        renditions: vec![vec![], vec![27, 42]],
+        stacks: vec![0],
+        charsets: default_charsets(),
+        hidden_cursor: false,
+    };
+    let mut bigb = gen_bases(c, &bigspec);
+    // a coloured bar and a reverse bar painted with EL
+    let extra: Vec<Base> = bigb
+        .iter()
+        .filter_map(|b| {
+            let mut s2 = b.screen.clone();
+            let tail = vec![Op::Cup(Some(11), Some(1)), Op::Sgr(vec![7]), Op::El(Some(2)), Op::Cup(Some(b.lines), Some(1)), Op::Sgr(vec![0, 44]), Op::El(Some(2)), Op::Sgr(vec![])];
+            for op in &tail {
+                apply(&mut s2, op).ok()?;
+            }
+            let mut script = b.script.clone();
+            script.extend(tail);
+            Some(Base { columns: b.columns, lines: b.lines, script, screen: s2 })
+        })
+        .collect();
+    bigb.extend(extra);
+    sweep(c, &bigb, |_| vec![Op::Display], |c, t, local| {
+        local.count("big_screen_displays");
+        if let Ok((_, post, Some(d))) = t.outcome {
+            if let Some(m) = check_display(t.pre, d) {
+                viol(c, "C10", "E2.display.big", t, "mismatch:rendering", m);
+            }
+            if post != t.pre {
+                let diffs = compare(t.pre, post, &Default::default(), &ALL_COMPS);
+                viol(c, "C10", "E2.display.big", t, "impure:state-changed", format!("display() changed the observable state: {}", diffs.first().map(|d| d.1.clone()).unwrap_or_else(|| "dirty".into())));
+            }
+        } else if let Err(m) = t.outcome {
+            viol(c, "C10", "E2.display.big", t, &format!("panic:{}", panic_class(m)), format!("display() panicked: {}", m));
+        }
+    });
+    // two later operations after display() on wide rows: o2(o1(s)) vs o2(o1(display(s)))
+    let wide: Vec<Base> = large_bases(c, vec![Fill::F0, Fill::F8, Fill::F2]).into_iter().filter(|b| b.columns > 100).step_by(2).collect();
+    sweep(
+        c,
+        &wide,
+        |b| {
+            let w = b.columns;
+            let _ = w;
+            vec![Op::Bell] // one call per base; the pairs are enumerated in the judge
+        },
+        |c, t, local| {
+            let _ = t;
+            let o1s = [Op::Ich(Some(2)), Op::Ich(Some(300)), Op::Dch(Some(1)), Op::Il(Some(1)), Op::Draw("wxyz".into())];
+            let o2s = [Op::Resize(None, Some(t.pre.columns + 4)), Op::Resize(Some(t.pre.lines + 2), Some(t.pre.columns + 1))];
+            let mut disp = t.pre_screen.clone();
+            if apply(&mut disp, &Op::Display).is_err() {
+                return;
+            }
+            for o1 in &o1s {
+                for o2 in &o2s {
+                    let run = |start: &Screen| -> Option<crate::snapshot::Snap> {
+                        let mut x = start.clone();
+                        apply(&mut x, o1).ok()?;
+                        apply(&mut x, o2).ok()?;
+                        Some(snap(&x))
+                    };
+                    local.transitions += 4;
+                    local.count("two_step_pairs");
+                    if let (Some(a), Some(b)) = (run(t.pre_screen), run(&disp)) {
+                        if a != b {
+                            let diffs = compare(&a, &b, &Default::default(), &ALL_COMPS);
+                            viol(
+                                c,
+                                "C10",
+                                "E2.pair2.large",
+                                t,
+                                "impure:later-ops-differ",
+                                format!(
+                                    "{} then {} end in a different state when display() was called first: {}",
+                                    o1.short(),
+                                    o2.short(),
+                                    diffs.first().map(|d| d.1.clone()).unwrap_or_else(|| "dirty".into())
+                                ),
+                            );
+                            return;
+                        }
+                    }
+                }
+            }
+        },
+    );
     // (3) histories with display interposed at every subset of positions: BFS where display is an
     // ordinary op; dedup on the full key keeps absent/materialised variants apart; every transition
     // out of both variants is compared with the same model.
@@ -486,6 +598,8 @@ pub fn c10(c: &Collector, g: &mut Guard) {
     g.need(c, "grids_with_placeholder");
     g.need(c, "paired_equal");
     g.need(c, "bfs_display");
+    g.need(c, "big_screen_displays");
+    g.need(c, "two_step_pairs");
 }
 
 // =====================================================================  C15
@@ -1263,9 +1377,12 @@ pub fn c14(c: &Collector, g: &mut Guard) {
         |_| {
             let mut v = Vec::new();
             let mut pushes = String::new();
-            for i in 0..40u32 {
+            for i in 0..300u32 {
                 pushes.push_str(&format!("\x1b[{};{}H\x1b[{}m\x1b7", 1 + i % 7, 1 + (i * 3) % 9, 30 + i % 8));
-                for k in [1u32, 2, 3, 8, 9, 16, 17, 32, 33, 40] {
+                if ![0, 1, 2, 8, 16, 31, 32, 63, 64, 127, 128, 129, 255, 256, 299].contains(&i) {
+                    continue;
+                }
+                for k in [1u32, 2, 3, 8, 9, 16, 17, 32, 33, 40, 64, 65, 127, 128, 129, 130, 200, 256, 257, 300] {
                     if k <= i + 1 {
                         let pops = "\x1b8".repeat(k as usize);
                         v.push(Op::Feed(vec![format!("{}\x1b[H\x1b[m{}", pushes, pops)], true));
@@ -1521,6 +1638,9 @@ pub fn c12(c: &Collector, g: &mut Guard) {
                     }
                 }
             }
+            for s in ["\x1b[?000025l", "\x1b[00000004h", "\x1b[?0000000000000000000007l", "\x1b[?025l\x1b[?00025h"] {
+                v.push(Op::Feed(vec![s.to_string()], true));
+            }
             for s in ["\x1b[?3;5h", "\x1b[4;20h", "\x1b[?6;7l", "\x1b[?25l\x1b[?25h", "\x1b[h", "\x1b[?l", "\x1b[?5h\x1b[?5h", "\x1b[?5l\x1b[?5l", "\x1b[?3l", "\x1b[?25l\x1b[4h", "\x1b[4h\x1b[?4l"] {
                 v.push(Op::Feed(vec![s.to_string()], true));
             }
@@ -1684,6 +1804,23 @@ pub fn c16(c: &Collector, g: &mut Guard) {
         |c, t, local| {
             local.count("large_geometry_transitions");
             c16_judge(c, t, "E2.depth1.large", local);
+        },
+    );
+    let hb: Vec<Base> = bases.iter().filter(|b| b.columns <= 3 && b.lines <= 2).step_by(97).take(6).cloned().collect();
+    sweep(
+        c,
+        &hb,
+        |_| {
+            let mut v = Vec::new();
+            for n in [9998u32, 9999, 10000, 12000, 65535, 65536, 70000] {
+                v.push(Op::Resize(Some(n), None));
+                v.push(Op::Resize(None, Some(n)));
+            }
+            v
+        },
+        |c, t, local| {
+            local.count("huge_resizes");
+            c16_judge(c, t, "E2.huge-sizes", local);
         },
     );
     // DECCOLM on a screen wider than 132 columns, then grow again: nothing may come back
